@@ -81,6 +81,20 @@ Proof.
 Qed.
 Print Assumptions predef_roundtrip.
 
+(** SDgetrange's fall-back (no valid_range of the data's type class): valid_max / valid_min set as two attributes
+    come back as (max, min); [getrange_fallback_refines]: the branch as the source has it -- the looked-up names and
+    which of them is copied to pmax are regenerated from SDgetrange -- is this specification *)
+Theorem range_fallback_roundtrip : forall l vnt sz cmax cmin mx mn,
+  spec_getrange_fb (put_all l [mkAttr valid_max_name vnt cmax mx; mkAttr valid_min_name vnt cmin mn]) vnt sz
+  = Some (fixed sz mx, fixed sz mn).
+Proof. exact range_fallback_roundtrip_lemma. Qed.
+Print Assumptions range_fallback_roundtrip.
+
+Theorem getrange_fallback_refines : forall l vnt sz, names_ok l ->
+  sd_getrange_fb (Some l) vnt sz = spec_getrange_fb (map abs_m l) vnt sz.
+Proof. exact getrange_fallback_refines_lemma. Qed.
+Print Assumptions getrange_fallback_refines.
+
 (* ---- (3) the implementation model refines the specification ------------------------------------------- *)
 
 (** SDIputattr with NC_findattr (attr.c / mfsd.c): for C-string names within H4_MAX_NC_NAME, a known number type and
